@@ -111,6 +111,7 @@ type ckEv struct {
 	Main     bool        `json:"main"`
 	Last     bool        `json:"last"`
 	Corrupt  string      `json:"corrupt"` // "", "main", "ext"
+	Evil     bool        `json:"evil"`    // the chunk's file name is "..", "." or ends in one of them
 	Pad      bool        `json:"pad"`     // the flipped bit is in the 1 KB header block (no effective checksum)
 	BadDid   bool        `json:"baddid"`
 	BadVer   bool        `json:"badver"`
@@ -300,7 +301,15 @@ func (s *ckSim) finalizedSame(st *ckStream) bool {
 }
 
 func (s *ckSim) deliver(st *ckStream, k int, corrupt string, badDid bool, badVer bool) {
+	s.deliverNamed(st, k, corrupt, badDid, badVer, "")
+}
+
+// deliverNamed: evil != "" replaces the chunk's file name (a name that would leave the snapshot's directory)
+func (s *ckSim) deliverNamed(st *ckStream, k int, corrupt string, badDid bool, badVer bool, evil string) {
 	c := st.chunks[k]
+	if evil != "" {
+		c.Filepath = evil
+	}
 	c.Data = append([]byte{}, c.Data...)
 	pad := false
 	if len(c.Data) == 0 {
@@ -345,7 +354,7 @@ func (s *ckSim) deliver(st *ckStream, k int, corrupt string, badDid bool, badVer
 		cnt = 0 // not representable for TLC; Last says it
 	}
 	ev := ckEv{Op: "Add", S: st.id, From: st.from, Index: st.index, Cid: c.ChunkId, Count: cnt,
-		Main: !c.HasFileInfo, Last: c.IsLastChunk(), Corrupt: corrupt, BadDid: badDid, BadVer: badVer, Ret: ret, Pad: pad}
+		Main: !c.HasFileInfo, Last: c.IsLastChunk(), Corrupt: corrupt, BadDid: badDid, BadVer: badVer, Ret: ret, Pad: pad, Evil: evil != ""}
 	ev.Streamed = st.streamed
 	if s.notes > before {
 		if st.streamed {
@@ -428,6 +437,10 @@ func (s *ckSim) run(steps int) {
 				s.deliver(st, pos[k], kind, false, false)
 				pos[k]++
 			}
+		case c < 87 && pos[k] < len(st.chunks) && pos[k] > 0 && st.chunks[pos[k]].HasFileInfo && st.chunks[pos[k]].FileChunkId == 0 && !st.chunks[pos[k]].IsLastChunk():
+			// the first chunk of an external file under a name that points out of the snapshot's directory: it must
+			// be refused (the stream may be dropped with it), nothing may be written elsewhere, nobody may crash
+			s.deliverNamed(st, pos[k], "", false, false, []string{"/data/x/..", "..", ".", "a/b/."}[s.rng.Intn(4)])
 		case c < 89: // foreign deployment / binary version
 			if pos[k] < len(st.chunks) {
 				s.deliver(st, pos[k], "", s.rng.Intn(2) == 0, true)
